@@ -866,7 +866,36 @@ func coldConcurrent(r *Report, bin string, thorough bool) map[string]any {
 	}
 	var mu sync.Mutex
 	var execs, points, viol, capped int64
-	queue := make(chan item, 1<<16)
+	// unbounded FIFO work list: the workers both consume and produce, a bounded channel can fill up and
+	// block every one of them in a send (seen with code whose every atomic operation is a scheduling point)
+	var qmu sync.Mutex
+	qcond := sync.NewCond(&qmu)
+	var work []item
+	qhead, qclosed := 0, false
+	push := func(it item) {
+		qmu.Lock()
+		work = append(work, it)
+		qmu.Unlock()
+		qcond.Signal()
+	}
+	pop := func() (item, bool) {
+		qmu.Lock()
+		defer qmu.Unlock()
+		for qhead == len(work) && !qclosed {
+			qcond.Wait()
+		}
+		if qhead == len(work) {
+			return item{}, false
+		}
+		it := work[qhead]
+		work[qhead] = item{}
+		qhead++
+		if qhead > 1<<16 && qhead*2 > len(work) {
+			work = append([]item(nil), work[qhead:]...)
+			qhead = 0
+		}
+		return it, true
+	}
 	var pending sync.WaitGroup
 	cap := int64(40000)
 	if thorough {
@@ -952,8 +981,17 @@ func coldConcurrent(r *Report, bin string, thorough bool) map[string]any {
 						np[k] = o.Decisions[k].C
 					}
 					np[i] = alt
+					mu.Lock()
+					full := execs >= cap
+					if full {
+						capped++
+					}
+					mu.Unlock()
+					if full {
+						continue
+					}
 					pending.Add(1)
-					queue <- item{it.scn, np}
+					push(item{it.scn, np})
 				}
 			}
 			if d.C != 0 && (!d.S || d.P) {
@@ -963,17 +1001,24 @@ func coldConcurrent(r *Report, bin string, thorough bool) map[string]any {
 	}
 	for w := 0; w < 16; w++ {
 		go func() {
-			for it := range queue {
+			for {
+				it, ok := pop()
+				if !ok {
+					return
+				}
 				runOne(it)
 			}
 		}()
 	}
 	for _, s := range scenarios {
 		pending.Add(1)
-		queue <- item{s, nil}
+		push(item{s, nil})
 	}
 	pending.Wait()
-	close(queue)
+	qmu.Lock()
+	qclosed = true
+	qmu.Unlock()
+	qcond.Broadcast()
 	if capped > 0 {
 		r.NotExhaustive(fmt.Sprintf("cold-start concurrency: execution cap %d reached, %d subtrees not explored", cap, capped))
 	}
